@@ -263,6 +263,14 @@ class netcdf_indexer:
                 )
                 data = data.view(dtype_unsigned_int)
 
+                # The fill, missing and valid values are created with
+                # 'dtype' and then viewed in the same way as the data,
+                # so 'dtype' must have the byte order of the data
+                # (which can differ from the variable's: the netCDF4
+                # library returns a zero-dimensional big-endian
+                # variable in native byte order).
+                dtype = data_dtype
+
         # ------------------------------------------------------------
         # Mask the data
         # ------------------------------------------------------------
